@@ -518,7 +518,48 @@ def check_decompose(o):
     return bad
 
 
-CHECKS = {"decompose": check_decompose, "vec": check_vec, "alvec": check_alvec, "inv3": check_inv3, "rot2": check_rot2, "rot3": check_rot3,
+def check_hprod(o):
+    """compositions whose product matrix has a zero / negative / non-unit corner entry: the result is the product up to a non-zero
+    factor, and maps points as the two maps in sequence"""
+    import menpo.transform as mt
+
+    bad = []
+    c = o["case"]
+    A, B, P = L.mat(c["M"]), L.mat(c["M2"]), L.mat(o["P"])
+    is_tr = np.array_equal(B[:2, :2], np.eye(2)) and np.array_equal(B[2], [0, 0, 1])
+
+    def mk():
+        return mt.Homogeneous(A.copy()), (mt.Translation(B[:2, 2].copy()) if is_tr else mt.Homogeneous(B.copy()))
+
+    probes = np.array([[2.0, 1.0], [3.0, -1.0], [0.5, 2.0], [4.0, 4.0]])
+
+    def seq(x):                      # a o b evaluated with plain arithmetic
+        hb = np.c_[x, np.ones(len(x))] @ B.T
+        y = hb[:, :2] / hb[:, 2:]
+        ha = np.c_[y, np.ones(len(y))] @ A.T
+        return ha[:, :2] / ha[:, 2:]
+
+    with np.errstate(all="ignore"):
+        want = seq(probes)
+    fin = np.all(np.isfinite(want), axis=1) & np.all(np.abs(want) < 1e6, axis=1)          # (a probe may sit on the pole of the map)
+    probes, want = probes[fin], want[fin]
+    results = {}
+    a, b = mk(); results["a.compose_after(b)"] = a.compose_after(b)
+    a, b = mk(); results["b.compose_before(a)"] = b.compose_before(a)
+    a, b = mk(); a.compose_after_inplace(b); results["a.compose_after_inplace(b)"] = a
+    for name, r in results.items():
+        H = np.asarray(r.h_matrix, dtype=float)
+        i0 = np.unravel_index(np.argmax(np.abs(P)), P.shape)
+        if not np.all(np.isfinite(H)) or abs(H[i0]) < 1e-12 or not np.allclose(H * P[i0], P * H[i0], atol=1e-9):
+            bad.append((name + ": the matrix of the composition is not the product (up to a non-zero factor)", {"got": H, "want": P}, None))
+            continue
+        got = r.apply(probes)
+        if not np.all(np.isfinite(got)) or not np.allclose(got, want, atol=1e-9):
+            bad.append((name + ": does not map points as the two maps in sequence", {"got": got, "want": want}, None))
+    return bad
+
+
+CHECKS = {"hprod": check_hprod, "decompose": check_decompose, "vec": check_vec, "alvec": check_alvec, "inv3": check_inv3, "rot2": check_rot2, "rot3": check_rot3,
           "quat": check_quat, "about": check_about, "scalefac": check_scalefac, "tcoords": check_tcoords}
 
 
